@@ -7,6 +7,7 @@ Replay kinds (the "kind" / shape of the replay object written by the checks):
             first difference, and the history oracles of the property on the
             implementation's output
   history   "case" starting with `start` / `popts`      -> harness `sloop` / `ploop` + model
+  nomix     "case": lines of the no-mix script language  -> harness `nomix` + model + oracle
   input     "input" + "options" (full-feature JSON)     -> crash run + output oracles
   input     "model" + "settings" (solver run)           -> solve run, score sequence
   layout    C17 (handled by p_c17 itself)
@@ -30,6 +31,22 @@ def run(pid, path):
         _print("REPLAY: harness does not build:\n" + l[-800:])
         return 1
     C.build_model()
+    if kind == "nomix" and isinstance(rp.get("case"), list):
+        import nomix_corr as NM
+        lines = [l for l in rp["case"] if not l.startswith("case ") and l != "end"]
+        res, st = NM.run_cases([{"id": "r", "lines": lines, "stats": {"shapes": [], "plans": 0, "unplans": 0}}], "replay")
+        r = res[0]
+        still = False
+        if r["diff"]:
+            still = True
+            _print("REPLAY: implementation and model differ at line %(line)d\n  impl : %(impl)s\n  model: %(model)s" % r["diff"])
+        else:
+            _print("REPLAY: implementation and model agree on %d lines" % len(r["impl"]))
+        for k, what, step in NM.oracle(r["impl"]):
+            still = True
+            _print("REPLAY: %s" % what)
+        _print("REPLAY: recorded failure was: %s" % rp.get("what"))
+        return 1 if still else 0
     if "case" in rp and isinstance(rp["case"], list):
         lines = rp["case"]
         first = lines[0].split()[0] if lines else ""
